@@ -389,6 +389,11 @@ impl<'a> Interp<'a> {
     /// Full per-field conversion: type or `with` converter, then the field's map / and_then.
     fn conv_field(&self, f: &Field, it: &PItem) -> Expect {
         let mut e = self.conv_ty(&f.ty, it);
+        if let (Some(Val::Some(inner)), true) = (e.value.clone(), f.with != With::None) {
+            if let Val::U(v) = *inner {
+                e.value = Some(Val::some(Val::U(v + WITH_ADD)));
+            }
+        }
         if let Some(Val::U(v)) = e.value.clone() {
             let mut v = v;
             if f.with != With::None {
